@@ -2033,10 +2033,10 @@ def guarded(ck: Ck, stage: str, fn, *args, resume=None) -> None:
 def run(ck: Ck) -> None:
     ck.rule = ('IDMan: random operation sequences over a small ID range (collisions frequent) from IDMan(existing), non-trivial = '
                'more than 3 distinct results (thorough: in addition every sequence of up to 4 operations over 12 operations from the empty manager); lifecycle: random histories of create/copy/cross-map copy/collapse_one/remove/re-add/gc/'
-               'node edits over 7 object kinds, non-trivial = contains create and remove; world: histories over three maps of point '
+               'node edits over 9 object kinds (incl. make_prism / make_hollow), a quarter of them starting from maps built by VMF.parse of small documents (world id 1 in most), full gc.collect() at every step boundary, the worldspawn counted among the entities, non-trivial = contains create and remove; world: histories over three maps of point '
                'entities, brush entities, world brushes, brush groups and visgroup trees (every object gets its events in the stream of '
                'its kind; the entity/brush/face part also runs as bundled events on top-level objects), non-trivial = '
-               'contains an explicit cross-map or same-map copy(<map>) or a collapse_one; node maps: histories of node entities over three maps '
+               'contains an explicit cross-map or same-map copy(<map>), a collapse_one (visgroup False / True / a VisGroup of the destination) or a map that starts as VMF.parse of a generated document (40 % of the maps; the event TParse runs the program read from VMF.parse); node maps: histories of node entities over three maps '
                'with cross-map copy, fixup_key reservations and the real collapse_one, non-trivial = contains a copy or collapse; node: histories of the nodeid keyvalue, non-trivial = '
                'at least two of set/delete/remove; parse: generated VMF documents whose ids are drawn from a small pool with '
                'missing/0/negative/colliding values, non-trivial = at least two kinds with different desired ids; fixups: random '
@@ -2045,6 +2045,8 @@ def run(ck: Ck) -> None:
                'argument of up to 2 values followed by every sequence of up to 2 operations, and of 3 values followed by at most one); '
                'distinct by full sequence / text')
     ck.trusted.append('hand-written models SM/IdMan.v, SM/IdLife.v, SM/IdFixupHist.v, SM/IdWorld.v, SM/IdNest.v, SM/IdNode.v, SM/IdNodeMaps.v (tied by differential correspondence on every run)')
+    ck.trusted.append('translate/c08_parse.py (which statements of VMF.parse touch entity / brush / face IDs; constructor calls spelled through a module attribute are not in the helper census)')
+    ck.assumptions.append('NullIDMan is used only for maps opened with preserve_ids=True (census obligation maps_get_idman_unless_preserve_ids); such maps are exempt')
     ck.assumptions.append('objects are added to the map they were constructed for (VMF.add_ent docstring); Entity._keys is only written through the mapping API')
     ok_t = ck.translate('IdSites_gen', c08_sites.translate)
     side = ck.extra.get('translated', {}).get('IdSites_gen', {})
